@@ -100,6 +100,42 @@ func c16(r *engine.Report, p *engine.Program) {
 	}
 	md := hmd.Params[1]
 	wantProb, _ := constStringOf(p.Const("netceptor", "ProblemServiceUnknown"))
+	// R1b a packet dropped by policy is silent: from the Drop outcome of the firewall decision no notice is reachable
+	{
+		cDrop := p.Const("netceptor", "FirewallResultDrop")
+		var decision ssa.Value
+		if cDrop != nil {
+			for _, i := range engine.Ifs(hmd) {
+				if cmp, ok := engine.AsCmp(i.Cond, func(v ssa.Value) bool { return types.Identical(v.Type(), cDrop.Type()) }); ok {
+					if k, isC := engine.ConstInt(cmp.Other); isC && k == constIntVal(cDrop) {
+						decision = cmp.Subject
+					}
+				}
+			}
+		}
+		_, notices := deliveryTargets(p, hmd)
+		okD := decision != nil && len(notices) > 0
+		why := "the firewall decision compared with FirewallResultDrop, or the notice sites, were not found"
+		if okD {
+			dropE, _ := engine.IntCmpEdges(hmd, func(v ssa.Value) bool { return v == decision }, 0, token.EQL, constIntVal(cDrop))
+			okD = len(dropE) > 0
+			for _, e := range dropE {
+				if hit := reachFromEdge(hmd, e, nil, nil, func(in ssa.Instruction) bool {
+					for _, n := range notices {
+						if in == ssa.Instruction(n) {
+							return true
+						}
+					}
+					return false
+				}); hit != nil {
+					okD = false
+					why = "from the Drop outcome a path reaches " + descInstr(p, hit) + ": a packet dropped by policy produces a notice on the sender's socket"
+				}
+			}
+		}
+		r.Check("R1-notice", "handleMessageData: a packet dropped by policy produces no notice", hmd.Pos(), okD,
+			fmt.Sprintf("from the edge on which the merged firewall result equals FirewallResultDrop none of the %d sendUnreachable sites is reachable", len(notices)), why)
+	}
 	// R1 the unknown-service branch
 	{
 		// edge: lookup !ok
